@@ -71,10 +71,13 @@ func deepEq(w, g reflect.Value, path string) (bool, string) {
 			return false, fmt.Sprintf("%s: %d vs %d", path, w.Uint(), g.Uint())
 		}
 	case reflect.Float32, reflect.Float64:
-		if twinMode && math.IsNaN(w.Float()) && math.IsNaN(g.Float()) {
-			break // generator sanity check only: the twins hold the same NaN
+		if math.IsNaN(w.Float()) && math.IsNaN(g.Float()) {
+			// NaN for NaN is the round trip (== cannot say so). NaN is outside the stated universe, so an
+			// error would be fine as well; where the encoder accepts it (the checkpoint of a component's
+			// I/O value did, once in 27 M thorough evaluations) the decoded NaN is not "a different value".
+			break
 		}
-		if w.Float() != g.Float() { // == : -0 equals +0; NaN is never generated inside the universe
+		if w.Float() != g.Float() { // == : -0 equals +0
 			return false, fmt.Sprintf("%s: %s vs %s", path, fl(w.Float()), fl(g.Float()))
 		}
 	case reflect.Complex64, reflect.Complex128:
